@@ -537,6 +537,25 @@ func mPoolPut(e *Engine, a []Value) Value {
 			}
 		}
 	}
+	// the same object handed back twice without a Get in between: the pool would give it to two owners
+	if it, ok := a[1].(Iface); ok {
+		if pv, ok := it.V.(*Value); ok {
+			dup := false
+			if q, ok := e.poolPrivate[p]; ok {
+				if qi, ok := q.(Iface); ok && qi.V == Value(pv) {
+					dup = true
+				}
+			}
+			for _, q := range e.pools[p] {
+				if qi, ok := q.(Iface); ok && qi.V == Value(pv) {
+					dup = true
+				}
+			}
+			if dup {
+				e.reportKind("ownership", "sync.Pool.Put of an object that is already in the pool (released twice), in "+e.curFunc(), nil)
+			}
+		}
+	}
 	if e.poolModel == 0 {
 		if _, ok := e.poolPrivate[p]; !ok {
 			if e.poolPrivate == nil {
